@@ -120,6 +120,10 @@ def tagFold : Nat := 40
 def tagSep : Nat := 41
 def tagConsume : Nat := 42
 def tagFor : Nat := 43
+def tagAdd : Nat := 44
+def tagMul : Nat := 45
+def tagLess : Nat := 46
+def tagFoldPair : Nat := 47
 
 /-- the value returned by the `intersperse` separator function -/
 def sepVal : Val := Val.int (-1)
@@ -499,7 +503,8 @@ def elemsOf : Val → Option (List Val)
     let lo := a.toInt
     let hi := if incl then b.toInt + 1 else b.toInt
     some ((List.range (hi - lo).toNat).map (fun (i : Nat) => Val.int (lo + i)))
-  | .map es => some (es.map (fun (k, v) => Val.tuple [k, v]))
+  -- maps occur as elements only as *boxes* (maps with a metamap, see `boxOf`), which are not iterable
+  | .map _ => none
   | _ => none
 
 /-- the `loop` of `Flatten::next`, at most `fuel` iterations. The nested iterator runs over an
@@ -808,10 +813,23 @@ def mapInsert (k v : Val) : List (Val × Val) → List (Val × Val)
   | [] => [(k, v)]
   | (k', v') :: rest => if Val.same k' k then (k', v) :: rest else (k', v') :: mapInsert k v rest
 
-/-- `+` as `sum` uses it: the accumulator starts as a Number, so only Number + Number succeeds -/
+/-- A *box* is the scripts' order-logging object: a map `{v: payload}` whose metamap defines `@+`,
+`@*` and `@<`. Each operator logs `(own payload, other operand unboxed)`; `+` / `*` build a new box
+whose payload records both operands in order (a tuple for `+`, a list for `*`), `<` compares `key`. -/
+def boxOf (v : Val) : Val := .map [(.str [118], v)]
+
+def unbox : Val → Val
+  | .map [(.str [118], v)] => v
+  | x => x
+
+/-- `run_add` on non-box operands: Number + Number (wrapping), and concatenation of two strings, two
+lists or two tuples; any other combination is an error -/
 def addVal : Val → Val → Ans
   | .num (.i a), .num (.i b) => .ok (.num (.i (a + b)))
   | .num _, .num _ => .error .unsupported
+  | .str a, .str b => .ok (.str (a ++ b))
+  | .list a, .list b => .ok (.list (a ++ b))
+  | .tuple a, .tuple b => .ok (.tuple (a ++ b))
   | _, _ => .error .type
 
 def mulVal : Val → Val → Ans
@@ -819,22 +837,50 @@ def mulVal : Val → Val → Ans
   | .num _, .num _ => .error .unsupported
   | _, _ => .error .type
 
+/-- `run_binary_op(Add, lhs, rhs)`: a box on the *left* answers with its `@+` (whatever the right
+operand is); a box on the right of a non-box has no `@r+` and is an error -/
+def addOp (a b : Val) : List Ev × Ans :=
+  match a with
+  | .map [(.str [118], v)] => ([Ev.call tagAdd [v, unbox b]], .ok (boxOf (.tuple [v, unbox b])))
+  | _ => ([], addVal a b)
+
+def mulOp (a b : Val) : List Ev × Ans :=
+  match a with
+  | .map [(.str [118], v)] => ([Ev.call tagMul [v, unbox b]], .ok (boxOf (.list [v, unbox b])))
+  | _ => ([], mulVal a b)
+
 /-- bytewise lexicographic `<` (Rust `str` ordering) -/
 def bytesLt : List Nat → List Nat → Bool
   | _, [] => false
   | [], _ :: _ => true
   | a :: as, b :: bs => a < b || (a == b && bytesLt as bs)
 
-/-- `run_less`: Number < Number, String < String, anything else is an error -/
+/-- `run_less` on non-box operands: Number < Number, String < String, anything else is an error -/
 def ltVal : Val → Val → Except Err Bool
   | .num (.i a), .num (.i b) => .ok (a < b)
   | .num _, .num _ => .error .unsupported
   | .str a, .str b => .ok (bytesLt a b)
   | _, _ => .error .type
 
+/-- `run_binary_op(Less, lhs, rhs)`: a box on the left answers with its `@<` (logged) -/
+def ltOp (a b : Val) : List Ev × Except Err Bool :=
+  match a with
+  | .map [(.str [118], v)] => ([Ev.call tagLess [v, unbox b]], .ok (decide (key v < key (unbox b))))
+  | _ => ([], ltVal a b)
+
 /-- `compare_values(a, b, invert)`: `a < b` selects `a` (min) resp. `b` (max); otherwise the other -/
-def pickMin (a b : Val) : Ans := do let lt ← ltVal a b; pure (if lt then a else b)
-def pickMax (a b : Val) : Ans := do let lt ← ltVal a b; pure (if lt then b else a)
+def pickMin (a b : Val) : List Ev × Ans :=
+  match ltOp a b with
+  | (e, .ok lt) => (e, .ok (if lt then a else b))
+  | (e, .error x) => (e, .error x)
+
+def pickMax (a b : Val) : List Ev × Ans :=
+  match ltOp a b with
+  | (e, .ok lt) => (e, .ok (if lt then b else a))
+  | (e, .error x) => (e, .error x)
+
+/-- the second fold function of the scripts: `|acc, x| (acc, x)` -/
+def foldPairFn (acc x : Val) : Val := .tuple [acc, x]
 
 /-- decimal digits of a natural number as bytes -/
 def natDigits (n : Nat) : List Nat := (toString n).toList.map Char.toNat
@@ -849,6 +895,7 @@ def displayBytes : Val → Option (List Nat)
 
 inductive Cons where
   | toList | toTuple | toMap | toString | count | sum | product
+  | sumInit (init : Val) | productInit (init : Val) | foldPair
   | min | max | minMax
   | minBy (k : KeyFn) | maxBy (k : KeyFn) | minMaxBy (k : KeyFn)
   | find (q : Pred) | position (q : Pred) | any (q : Pred) | all (q : Pred)
@@ -898,35 +945,46 @@ def runLoop (fuel : Nat) (it : It) : Cons → Ans × It × List Ev
       (fun acc => .ok (.str acc)) fuel it []
   | .count => foldIt (fun (n : Nat) _ => cont (n + 1)) (fun n => .ok (Val.int n)) fuel it 0
   | .sum =>
-    foldIt (fun (acc : Val) v => match addVal acc v with
-        | .ok a => cont a
-        | .error e => ([], .inr (.error e))) (fun a => .ok a) fuel it (Val.int 0)
+    foldIt (fun (acc : Val) v => match addOp acc v with
+        | (e, .ok a) => (e, .inl a)
+        | (e, .error x) => (e, .inr (.error x))) (fun a => .ok a) fuel it (Val.int 0)
   | .product =>
-    foldIt (fun (acc : Val) v => match mulVal acc v with
-        | .ok a => cont a
-        | .error e => ([], .inr (.error e))) (fun a => .ok a) fuel it (Val.int 1)
+    foldIt (fun (acc : Val) v => match mulOp acc v with
+        | (e, .ok a) => (e, .inl a)
+        | (e, .error x) => (e, .inr (.error x))) (fun a => .ok a) fuel it (Val.int 1)
+  | .sumInit init =>
+    foldIt (fun (acc : Val) v => match addOp acc v with
+        | (e, .ok a) => (e, .inl a)
+        | (e, .error x) => (e, .inr (.error x))) (fun a => .ok a) fuel it init
+  | .productInit init =>
+    foldIt (fun (acc : Val) v => match mulOp acc v with
+        | (e, .ok a) => (e, .inl a)
+        | (e, .error x) => (e, .inr (.error x))) (fun a => .ok a) fuel it init
+  | .foldPair =>
+    foldIt (fun (acc : Val) v => ([Ev.call tagFoldPair [acc, v]], .inl (foldPairFn acc v)))
+      (fun a => .ok a) fuel it (.tuple [])
   | .min =>
     foldIt (fun (acc : Option Val) v => match acc with
         | none => cont (some v)
         | some a => match pickMin a v with
-          | .ok m => cont (some m)
-          | .error e => ([], .inr (.error e)))
+          | (e, .ok m) => (e, .inl (some m))
+          | (e, .error x) => (e, .inr (.error x)))
       (fun a => .ok (a.getD .null)) fuel it none
   | .max =>
     foldIt (fun (acc : Option Val) v => match acc with
         | none => cont (some v)
         | some a => match pickMax a v with
-          | .ok m => cont (some m)
-          | .error e => ([], .inr (.error e)))
+          | (e, .ok m) => (e, .inl (some m))
+          | (e, .error x) => (e, .inr (.error x)))
       (fun a => .ok (a.getD .null)) fuel it none
   | .minMax =>
     foldIt (fun (acc : Option (Val × Val)) v => match acc with
         | none => cont (some (v, v))
         | some (lo, hi) => match pickMin lo v with
-          | .error e => ([], .inr (.error e))
-          | .ok lo' => match pickMax hi v with
-            | .error e => ([], .inr (.error e))
-            | .ok hi' => cont (some (lo', hi')))
+          | (e, .error x) => (e, .inr (.error x))
+          | (e, .ok lo') => match pickMax hi v with
+            | (e', .error x) => (e ++ e', .inr (.error x))
+            | (e', .ok hi') => (e ++ e', .inl (some (lo', hi'))))
       optPair fuel it none
   | .minBy k =>
     foldIt (fun (acc : Option (Val × Val)) v =>
